@@ -20,7 +20,7 @@ EXPLANATION += (  # round-3 supplement
     ' R2 is decided on MIR data flow (scope starts at the parameter and is fed back from the found declaration, flag starts true and is false afterwards). R7 lexical scopes are children of the scope the expression is checked in.'
 )
 EXPLANATION += (
-    ' R8 a segment fetched from the path iterator after the first one - also the one that follows leading `super`s - reaches resolve_name only with the search-enclosing-scopes flag set to false (path rule on the MIR of resolve_module_part_of_path). R9 module tree construction: the index registered in the children of a parent is the position of the own push of that child (len() read directly before that push, or len()-1 directly after it; through helper return values).'
+    ' R8 a segment fetched from the path iterator after the first one - also the one that follows leading `super`s - reaches resolve_name only with the search-enclosing-scopes flag set to false (path rule on the MIR of resolve_module_part_of_path). R9 module tree construction: the index registered in the children of a parent is the position of the own push of that child (len() read directly before that push, or len()-1 directly after it; through helper return values). R10 the occupied case of ScopeGraph::insert_import has no successful exit.'
 )
 ASSUMPTIONS = [
     "BTreeMap/HashMap lookups are exact-key lookups",
@@ -609,6 +609,34 @@ def rule_r9(F):
     return r
 
 
+def rule_r10(F):
+    """Same-named items never interfere: a scope holds at most one import per identifier, and a second import of a name that is
+    already imported there is an error - whichever item it names (the table is keyed by the identifier, so 'it is the same name' is
+    true for every collision).  In ScopeGraph::insert_import the occupied case has no successful exit."""
+    r = RuleResult("C13.R10", "a second import of an already imported name into the same scope is an error on every path", floor=1)
+    ps = [p for p in F.paths() if p.endswith("ScopeGraph::insert_import")]
+    if not ps:
+        r.missing("ScopeGraph::insert_import")
+        return r
+    b = F.body(ps[0])
+    ms = hir.find_match_on(b.hir["value"], "Entry::", min_arms=2)
+    if not ms:
+        r.missing("the match on the entry of the imports table in insert_import")
+        return r
+    for arm in ms[0]["arms"]:
+        alts = hir.pat_alternatives(arm["pat"])
+        if not any("Occupied" in a for a in alts):
+            continue
+        oks = [n for n in hir.walk(arm["body"]) if n.get("k") == "call" and hir.last(hir.call_def(n) or "") == "Ok"]
+        errs = [n for n in hir.walk(arm["body"]) if n.get("k") == "call" and hir.last(hir.call_def(n) or "") == "Err"]
+        r.inst("occupied entry", {"line": arm.get("line"), "ok_exits": len(oks), "err_exits": len(errs)})
+        if oks or not errs:
+            r.bad(b.path, "occupied import entry accepted", relfile(b.file), (oks[0].get("line") if oks else arm.get("line")),
+                  "importing a name that is already imported into the scope can succeed: the second import is dropped silently, so `import a.f; import b.f;` compiles and which `f` a call "
+                  "reaches depends on the order of the two lines")
+    return r
+
+
 def rules(ctx):
     F = ctx["F"]
-    return [rule_r1(F), rule_r2(F), rule_r3(F), rule_r4(F), rule_r5(F), rule_r6(F), rule_r7(F), rule_r8(F), rule_r9(F)]
+    return [rule_r1(F), rule_r2(F), rule_r3(F), rule_r4(F), rule_r5(F), rule_r6(F), rule_r7(F), rule_r8(F), rule_r9(F), rule_r10(F)]
